@@ -306,6 +306,15 @@ class Path:
                 if op == "is" and k == ("const", None) and v and (_never_none_call(x) or x[0] in ("list", "tuple", "dict", "set", "binop", "fstr", "comp", "lambda")):
                     return False
                 if v:
+                    # x is None / x == "" / x == 0 decide x's truthiness (and x == <truthy constant> too)
+                    for y, c in ((x, k), (k, x)):
+                        if c[0] == "const" and y[0] != "const" and y in asg:
+                            try:
+                                if asg[y] != bool(c[1]):
+                                    return False
+                            except Exception:
+                                pass
+                if v:
                     for y, c in ((x, k), (k, x)):
                         if _constant_like(c) and not _constant_like(y):
                             if eq.setdefault(y, c) != c:
